@@ -18,6 +18,7 @@ EXPLANATION = (
     "input reaches a raise and leftover keyword arguments reach a raise before the first operation runs. R18.3: operand order is "
     "preserved by lowering, compilation, execution and printing. R18.4: the root is last (anf moves it to the end, readers return "
     "the last value). R18.5: unsupported terms are rejected, never skipped. R18.6: the program's collections are frozen as tuples."
+    ' Added since: R18.3 accepts any permutation fold of a contraction, flags filters / slices / zip-pair truncation; R18.4 the tracer rejects a function whose result is not the last numbered value; R18.5 tracer constant predicate, repeated-input guard, complete or named printing of op parameters; R18.7 the trace record depends on *args and **kwargs; R18.8 popped operands are consumed on every path.'
 )
 ASSUMPTIONS = ["that each op computes the same value inside and outside a program is not decided", "pickling relies on R18.6 and on Op.__reduce__ (C07)"]
 RULE_TEXT = "one obligation per phase sequence, per validation path, per operand-order site, per rejection site"
